@@ -228,6 +228,7 @@ class FakeOS:
         self._mk("/cwd")
         self._mk("/tmp")
         self.after_rename = []  # harness hooks fn(fos, src, dst) called right after a rename took effect
+        self.access_log = []  # (op, canonical path): content reads / writes / deletes / renames / directory listings
         self.fsync_log = []  # (step, kind, path)
         self.rename_log = []
 
@@ -390,6 +391,8 @@ class FakeOS:
         p = _chk(p)
         self._pt("open", path=p, flags=flags)
         canon, ino, parent, name = self._resolve(p)
+        if not self.world.quiet:
+            self.access_log.append(("open", canon))
         if ino is None:
             if not flags & self.O_CREAT:
                 raise FileNotFoundError(_errno.ENOENT, "No such file or directory", p)
@@ -484,6 +487,9 @@ class FakeOS:
         self._pt(label, path=b, src=a)
         ca, ia, pa_, na = self._resolve(a, follow_last=False)
         cb, ib, pb_, nb = self._resolve(b, follow_last=False)
+        if not self.world.quiet:
+            self.access_log.append(("rename-src", ca))
+            self.access_log.append(("rename-dst", cb))
         if ia is None:
             raise FileNotFoundError(_errno.ENOENT, "No such file or directory", a)
         if pb_ is None:
@@ -506,6 +512,8 @@ class FakeOS:
         p = _chk(p)
         self._pt("remove", path=p)
         canon, ino, parent, name = self._resolve(p, follow_last=False)
+        if not self.world.quiet:
+            self.access_log.append(("remove", canon))
         if ino is None:
             raise FileNotFoundError(_errno.ENOENT, "No such file or directory", p)
         if ino.kind == "dir":
@@ -558,6 +566,8 @@ class FakeOS:
         p = _chk(p)
         self._pt("listdir", path=p)
         ino = self._lookup(p)
+        if not self.world.quiet:
+            self.access_log.append(("list", self._resolve(p)[0]))
         if ino is None:
             raise FileNotFoundError(_errno.ENOENT, "No such directory", p)
         if ino.kind != "dir":
@@ -568,6 +578,8 @@ class FakeOS:
         p = _chk(p)
         self._pt("scandir", path=p)
         ino = self._lookup(p)
+        if not self.world.quiet:
+            self.access_log.append(("list", self._resolve(p)[0]))
         if ino is None:
             raise FileNotFoundError(_errno.ENOENT, "No such directory", p)
         if ino.kind != "dir":
@@ -595,6 +607,8 @@ class FakeOS:
             ino = self._lookup(d)
             if ino is None or ino.kind != "dir":
                 continue
+            if not self.world.quiet:
+                self.access_log.append(("list", self._resolve(d)[0]))
             dn, fn = [], []
             for n, e in sorted(ino.entries.items()):
                 k = e
@@ -686,6 +700,8 @@ class FakeOS:
         if "r" in mode and "+" not in mode:
             self._pt("open_r", path=p)
             ino = self._lookup(p)
+            if not self.world.quiet:
+                self.access_log.append(("read", self._resolve(p)[0]))
             if ino is None:
                 raise FileNotFoundError(_errno.ENOENT, "No such file or directory", p)
             if ino.kind == "dir":
